@@ -12,7 +12,7 @@
 //                       _dispatch_timer_heap_get_slot returns, as found from the segment pointer table
 //   M tgt dl itv now prev   _dispatch_timer_unote_compute_missed -> ret tgt' dl'
 //   --- state machine (global _dispatch_timers_heap, private to this process: nothing else runs)
-//   t id flags          (re)initialise timer id as a fresh unote with du_timer_flags=flags (as _dispatch_source_timer_create)
+//   t id flags          (unregister timer id first if it is still armed, then) (re)initialise it as a fresh unote with du_timer_flags=flags (as _dispatch_source_timer_create)
 //   a id tgt dl         as _dispatch_after: direct timer values, interval = UINT64_MAX
 //   c id clock tgt dl itv   install a pending configuration (what dispatch_source_set_timer stores)
 //   g id                register: state = ANON wlh; configure if pending (as _dispatch_timer_unote_register, non-background)
@@ -189,7 +189,10 @@ int main(void)
 			printf("%lu %" PRIu64 " %" PRIu64 "\n", r, x.dt_timer.target, x.dt_timer.deadline);
 			break;
 		}
-		case 't': timer_init(id, (unsigned)a); break;
+		case 't':
+			// a record is recycled only after it left the heap (cancel of a still armed source)
+			if (id <= NT && T[id].du_type && _dispatch_unote_armed(&T[id])) _dispatch_timer_unote_unregister(&T[id]);
+			timer_init(id, (unsigned)a); break;
 		case 'a': T[id].dt_timer.target = a; T[id].dt_timer.deadline = b; T[id].dt_timer.interval = UINT64_MAX; break;
 		case 'c': {
 			dispatch_timer_config_t dtc = _dispatch_calloc(1, sizeof *dtc);
